@@ -220,6 +220,53 @@ func runC12(h rmHist) (res *c12result, opens int64, loads int64) {
 	// loading): the reopened store reports the same commit id and content, and its next Commit is
 	// version latest+1 with the content written, which a further reopen reports too
 	final := s.rs.LastCommitID()
+	// a store mounted for the first time on a database that already holds commits (an upgrade that
+	// adds a module): its own version numbering starts below the multistore's. The reopened store
+	// reports the last commit and the old content; every further commit is reported by a fresh reopen
+	// with the content of all stores, the added one included
+	if final.Version >= 1 {
+		dbl := crashdb.FromSnapshot(db.Snapshot(), nil)
+		opens++
+		sl, err := rmOpen(dbl, h.N+1, h.Pruning, -1)
+		if err != nil {
+			return fail("reopen-with-added-store", "reopening at version %d with one more store mounted fails: %v", final.Version, err)
+		}
+		if lc := sl.rs.LastCommitID(); lc.Version != final.Version || !bytes.Equal(lc.Hash, final.Hash) {
+			return fail("reopen-with-added-store-commit-id", "reopened with one more store mounted: reports %d/%X, last commit was %d/%X", lc.Version, lc.Hash, final.Version, final.Hash)
+		}
+		ml := make([]kvMap, h.N+1)
+		for i := 0; i < h.N; i++ {
+			ml[i] = models[i].clone()
+		}
+		ml[h.N] = kvMap{}
+		for round, ch := range [][2]int{{1, 2}, {2, 0}, {4, 5}, {3, 1}} {
+			rmApplyChoice(sl.kv(h.N), ml[h.N], ch[0])
+			rmApplyChoice(sl.kv(0), ml[0], ch[1])
+			var cid stypes.CommitID
+			var cerr interface{}
+			func() {
+				defer func() { cerr = recover() }()
+				cid = sl.rs.Commit()
+			}()
+			want := final.Version + int64(round) + 1
+			if cerr != nil || cid.Version != want {
+				return fail("commit-with-added-store", "commit %d after mounting one more store returned version %d / panic %v, expected %d", round+1, cid.Version, cerr, want)
+			}
+			opens++
+			sr, err := rmOpen(crashdb.FromSnapshot(dbl.Snapshot(), nil), h.N+1, h.Pruning, -1)
+			if err != nil {
+				return fail("reopen-after-commit-with-added-store", "a store was mounted at version %d; after commit %d the database does not reopen: %v", final.Version, want, err)
+			}
+			if lc := sr.rs.LastCommitID(); lc.Version != cid.Version || !bytes.Equal(lc.Hash, cid.Hash) {
+				return fail("reopen-commit-id-with-added-store", "a store was mounted at version %d; reopened after commit %d: reports %d/%X, commit returned %X", final.Version, want, lc.Version, lc.Hash, cid.Hash)
+			}
+			for i := 0; i <= h.N; i++ {
+				if got, w := sr.content(i), ml[i].iterate(nil, nil, true); !pairsEqual(got, w) {
+					return fail("reopen-content-with-added-store", "a store was mounted at version %d; reopened after commit %d store %s holds [%s], committed [%s]", final.Version, want, rmName(i), pairsString(got), pairsString(w))
+				}
+			}
+		}
+	}
 	if final.Version >= 1 && !h.SkipSettings {
 		base := db.Snapshot()
 		for _, p2 := range rmPrunings {
@@ -415,7 +462,7 @@ func C12(tier string) int {
 	run.Set("jobs", desc)
 	run.Set("reopens", opens)
 	run.Set("load_version_calls", loads)
-	run.Set("rule", "every write history (per version and per substore one of {nothing, k1=a, k1=b, delete k1, k2=a, k1=a+delete k2}) over N IAVL substores + 1 transient store, V versions, each of 7 pruning options, with store names s1,s2,... and again (N >= 2) with names that are proper prefixes of each other (acc, accounts); after every commit: reopen on a copy (LoadLatestVersion) and LoadVersion(u) for every u in 1..latest+1; before every commit: every retained version loaded on a CopyStore of the live multistore and read through CacheMultiStoreWithVersion while the writes are pending; at the end: failed loads on the live handle, and a reopen under every other pruning option (eagerly, lazily, or with the options changed on the loaded store) followed by three commits, after which the versions committed since are loaded: those the new options retain must read as committed, the others must be gone. Histories are distinct by construction; non-trivial = the content of some store differs between two versions (a write or delete that takes effect)")
+	run.Set("rule", "every write history (per version and per substore one of {nothing, k1=a, k1=b, delete k1, k2=a, k1=a+delete k2}) over N IAVL substores + 1 transient store, V versions, each of 7 pruning options, with store names s1,s2,... and again (N >= 2) with names that are proper prefixes of each other (acc, accounts); after every commit: reopen on a copy (LoadLatestVersion) and LoadVersion(u) for every u in 1..latest+1; before every commit: every retained version loaded on a CopyStore of the live multistore and read through CacheMultiStoreWithVersion while the writes are pending; at the end: failed loads on the live handle; a reopen with one more substore mounted for the first time followed by four commits, each checked by a fresh reopen; and a reopen under every other pruning option (eagerly, lazily, or with the options changed on the loaded store) followed by three commits, after which the versions committed since are loaded: those the new options retain must read as committed, the others must be gone. Histories are distinct by construction; non-trivial = the content of some store differs between two versions (a write or delete that takes effect)")
 	run.Sample(rmHist{N: 2, Choice: [][]int{{1, 4}, {3, 0}, {2, 5}}, Pruning: [2]int64{0, 2}}.String())
 	run.Assume("MemDB stands in for the on-disk database", "retention rule: commit w releases version w-1-keepRecent unless it is a multiple of keepEvery (store/iavl documentation)", "LoadVersion(0) is not judged (0 is not a committed version)")
 	return run.Finish()
